@@ -102,6 +102,30 @@ def dominated(body, dst_bb, via_blocks=(), via_edges=()):
     return False
 
 
+def implied_by_same_test(body, tests, via_edges):
+    """tests: [(bb, true_edges, false_edges)] of switches known to decide the SAME condition on operands nothing writes in between
+    (the caller vouches for that).  When test S1 dominates test S2, S2 can only take its true edge after S1 took its true edge
+    (same for false); if from S1's edge every path to S2 passes one of via_edges, S2's edge is behind via_edges too.
+    Returns via_edges plus the edges so implied."""
+    edges = list(via_edges)
+    for _ in range(3):
+        added = False
+        for (bb1, t1, f1) in tests:
+            for (bb2, t2, f2) in tests:
+                if bb1 == bb2 or not dominated(body, bb2, via_blocks=[bb1]):
+                    continue
+                for (e1s, e2s) in ((t1, t2), (f1, f2)):
+                    if not e1s or not e2s or all(e in edges for e in e2s):
+                        continue
+                    starts = [e[1] for e in e1s if e not in edges]
+                    if not starts or bb2 not in body.reachable_blocks(starts, removed_edges=edges):
+                        edges += [e for e in e2s if e not in edges]
+                        added = True
+        if not added:
+            break
+    return edges
+
+
 def comparison_true_only(cond):
     """For `if flag` with flag = phi(false | .. | <a REL b>): the comparison that is known to hold on the TRUE edge (the false edge
     says nothing about it).  None when `cond` is not of that shape."""
@@ -504,6 +528,23 @@ def root_local(body, operand, max_hops=12):
                     continue
         return l
     return l
+
+
+def move_aliases(body, l):
+    """l and every local that receives the WHOLE value of l (or of such a local) by a single-definition `x = move y`: the same
+    object under another name (e.g. the by-value parameter of a spliced helper)."""
+    out = {l}
+    grew = True
+    while grew:
+        grew = False
+        for x, ds in body.defs().items():
+            if x in out or len(ds) != 1 or ds[0][0] != "assign" or "use" not in ds[0][3]:
+                continue
+            pl = ds[0][3]["use"].get("move")
+            if pl is not None and not pl["p"] and pl["l"] in out:
+                out.add(x)
+                grew = True
+    return out
 
 
 def dominance_sorted(body, bbs):
